@@ -167,4 +167,71 @@ theorem discardEnd_rows (o o' : OverlapResult) (h : o.discardEnd = .ok o') :
   · cases h
   · next d r hr => cases h; exact ⟨d, r, hr, rfl⟩
 
+theorem discardEnd_removed (d : Row) (pre K : List Row) (p3 : ∀ x ∈ pre, ∃ g, x = Row.gap g) :
+    ∀ x ∈ ((d :: (pre ++ K)).reverse.drop K.reverse.length).take ((d :: (pre ++ K)).reverse.length - 1 - K.reverse.length),
+      ∃ g, x = Row.gap g := by
+  have e : (d :: (pre ++ K)).reverse = K.reverse ++ (pre.reverse ++ [d]) := by simp
+  have e2 : (K.reverse ++ (pre.reverse ++ [d])).length - 1 - K.reverse.length = pre.reverse.length := by
+    simp only [List.length_append, List.length_reverse, List.length_cons, List.length_nil]; omega
+  rw [e, List.drop_left, e2, List.take_left]
+  intro x hx
+  exact p3 x (List.mem_reverse.mp hx)
+
+theorem take_sub_suffix (pre K : List Row) : (pre ++ K).take ((pre ++ K).length - K.length) = pre := by
+  have : (pre ++ K).length - K.length = pre.length := by simp
+  rw [this, List.take_left]
+
+theorem adjPairs_cons (x : Row) (t : List Row) : adjPairs (x :: t) = seam [x] t ++ adjPairs t := by
+  have := adjPairs_append [x] t
+  simpa using this
+
+/-- mirror a pair as `Scaffold.reverse` / `to_scaffold` does -/
+def mirror (p : Fragment × Fragment) : Fragment × Fragment := (p.2.reverse, p.1.reverse)
+
+theorem adjPairs_reverse_map (l : List Row) :
+    adjPairs (l.reverse.map Row.reverse) = (adjPairs l).reverse.map mirror := by
+  induction l with
+  | nil => rfl
+  | cons x t ih =>
+    rw [List.reverse_cons, List.map_append, adjPairs_append, ih, adjPairs_cons]
+    simp only [List.map_cons, List.map_nil, adjPairs_single, List.append_nil, List.reverse_append, List.map_append]
+    congr 1
+    unfold seam
+    simp only [List.getLast?_map, List.getLast?_reverse, List.head?_cons, List.getLast?_singleton]
+    cases x with
+    | gap g => cases t.head? with
+      | none => rfl
+      | some y => cases y <;> rfl
+    | frag a => cases t.head? with
+      | none => rfl
+      | some y => cases y <;> rfl
+
+theorem noTerminalGap_reverse_map (l : List Row) (h : NoTerminalGap l) : NoTerminalGap (l.reverse.map Row.reverse) := by
+  constructor
+  · intro g hg
+    rw [List.head?_map, List.head?_reverse] at hg
+    cases hl : l.getLast? with
+    | none => rw [hl] at hg; cases hg
+    | some y =>
+      rw [hl] at hg
+      cases y with
+      | gap g' => exact h.2 g' hl
+      | frag f => simp [Row.reverse] at hg
+  · intro g hg
+    rw [List.getLast?_map, List.getLast?_reverse] at hg
+    cases hl : l.head? with
+    | none => rw [hl] at hg; cases hg
+    | some y =>
+      rw [hl] at hg
+      cases y with
+      | gap g' => exact h.1 g' hl
+      | frag f => simp [Row.reverse] at hg
+
+theorem noTerminalGap_toScaffoldRows (o : OverlapResult) (h : NoTerminalGap o.rows) : NoTerminalGap o.toScaffoldRows := by
+  unfold OverlapResult.toScaffoldRows
+  split
+  · exact noTerminalGap_reverse_map _ h
+  · exact h
+
+
 end AgpTpf.C07
